@@ -33,43 +33,53 @@ Definition do_starts (am : active_map) (l : list N) : active_map :=
 Definition do_drops (cancelable : bool) (am : active_map) (l : list N) : active_map :=
   if cancelable then fold_left (fun m c => aremove c m) l am else am.
 
-(* one token item of one SubmitSpans *)
-Definition submit_item (cancelable : bool) (s : span_set) (st : active_map * list collection)
-           (it : tok_item) : active_map * list collection :=
+(* one token item of one SubmitSpans; stale collections remember the collect id they were
+   meant for (a ghost tag: the code does not need it) *)
+Definition submit_item (cancelable : bool) (s : span_set) (st : active_map * list (N * collection))
+           (it : tok_item) : active_map * list (N * collection) :=
   let (am, stale) := st in
   let cl := mkColl s (ti_trace it) (ti_parent it) in
   if amem (ti_collect it) am
   then (aupdate (ti_collect it) (fun a => mkActive (a_colls a ++ [cl]) (a_dang a)) am, stale)
-  else if cancelable then (am, stale) else (am, stale ++ [cl]).
+  else if cancelable then (am, stale) else (am, stale ++ [(ti_collect it, cl)]).
 
 Definition do_submits (cancelable : bool) (am : active_map) (l : list (span_set * token))
-  : active_map * list collection :=
+  : active_map * list (N * collection) :=
   fold_left (fun st sub => fold_left (submit_item cancelable (fst sub)) (snd sub) st) l (am, []).
 
-(* commits: remove the entry and post-process what it holds *)
-Definition do_commits (am : active_map) (l : list N) : active_map * list record :=
+Definition tag (c : N) (l : list record) : list (N * record) := map (fun r => (c, r)) l.
+
+(* commits: remove the entry and post-process what it holds.  Every produced record is
+   tagged with the collect id of the entry it came from (ghost; erased by [process]). *)
+Definition do_commits (am : active_map) (l : list N) : active_map * list (N * record) :=
   fold_left (fun st c =>
                match alookup c (fst st) with
-               | Some a => (aremove c (fst st), snd st ++ fst (postprocess conv (a_colls a) (a_dang a)))
+               | Some a => (aremove c (fst st),
+                            snd st ++ tag c (fst (postprocess conv (a_colls a) (a_dang a))))
                | None => st
                end) l (am, []).
 
 (* default mode: every active collector hands over what it has buffered, keeps its danglings *)
-Definition flush_active (am : active_map) : active_map * list record :=
+Definition flush_active (am : active_map) : active_map * list (N * record) :=
   fold_left (fun st ka =>
                let (recs, d) := postprocess conv (a_colls (snd ka)) (a_dang (snd ka)) in
-               (fst st ++ [(fst ka, mkActive [] d)], snd st ++ recs)) am ([], []).
+               (fst st ++ [(fst ka, mkActive [] d)], snd st ++ tag (fst ka) recs)) am ([], []).
 
-Definition do_stale (stale : list collection) : list record :=
-  flat_map (fun cl => fst (postprocess conv [cl] [])) stale.
+Definition do_stale (stale : list (N * collection)) : list (N * record) :=
+  flat_map (fun ccl => tag (fst ccl) (fst (postprocess conv [snd ccl] []))) stale.
 
-(* the whole processing of one batch: new active map and the argument of report() *)
-Definition process (cancelable : bool) (am : active_map) (b : batch) : active_map * list record :=
+(* the whole processing of one batch: new active map and the argument of report(), each
+   record tagged with the collect id it was delivered for *)
+Definition process_owned (cancelable : bool) (am : active_map) (b : batch)
+  : active_map * list (N * record) :=
   let am1 := do_starts am (b_start b) in
   let am2 := do_drops cancelable am1 (b_drop b) in
   let (am3, stale) := do_submits cancelable am2 (b_submit b) in
   let (am4, committed) := do_commits am3 (b_commit b) in
   let (am5, flushed) := if cancelable then (am4, []) else flush_active am4 in
   (am5, committed ++ flushed ++ do_stale stale).
+
+Definition process (cancelable : bool) (am : active_map) (b : batch) : active_map * list record :=
+  let (am', recs) := process_owned cancelable am b in (am', map snd recs).
 
 End Conv.
